@@ -10,7 +10,7 @@ import (
 func init() { register("C09", "exploration", checkC09) }
 
 // raise kinds
-var c09Raises = []string{"throw", "throw-custom", "div0", "index", "undefined", "type", "atoi", "key", "method-missing", "arity", "fmt-open", "fmt-count", "bad-id"}
+var c09Raises = []string{"throw", "throw-custom", "div0", "index", "undefined", "type", "atoi", "key", "method-missing", "arity", "fmt-open", "fmt-count", "bad-id", "ctor-arity", "ctor-throw", "ctor-fault"}
 
 func c09RaiseStmt(kind string, tag string) zr.Stmt {
 	switch kind {
@@ -38,6 +38,12 @@ func c09RaiseStmt(kind string, tag string) zr.Stmt {
 		return zr.Show(zr.Bin{Op: "%", L: zr.S("{"), R: zr.ListLit{}})
 	case "fmt-count":
 		return zr.Show(zr.Bin{Op: "%", L: zr.S("{}{}"), R: zr.ListLit{Items: []zr.Expr{intLit(1)}}})
+	case "ctor-arity": // a user-defined constructor called with too few arguments
+		return zr.LetS("物"+tag, zr.New{Class: "自定错", Args: []zr.Expr{zr.S("only-one")}})
+	case "ctor-throw": // a constructor whose body raises
+		return zr.LetS("物"+tag, zr.New{Class: "炸", Args: []zr.Expr{intLit(1)}})
+	case "ctor-fault": // a constructor whose body hits a runtime fault
+		return zr.LetS("物"+tag, zr.New{Class: "炸", Args: []zr.Expr{intLit(0)}})
 	case "bad-id": // C04: starts like a number, is not one: rejected
 		return zr.Show(zr.N("3x7"))
 	}
@@ -67,6 +73,14 @@ func c09Chain(d int, raise string, h int, hc string, handlerReturns bool, inLoop
 	custom := zr.ClassDef{Name: "自定错", Props: []zr.PropDef{{Name: "内容", Val: zr.S("")}, {Name: "码", Val: intLit(0)}}}
 	cctor := &zr.FuncDef{Name: "自定错", Ctor: true, Params: []string{"文", "号"}, Body: []zr.Stmt{zr.Set(zr.ThisProp{Prop: "内容"}, zr.N("文")), zr.Set(zr.ThisProp{Prop: "码"}, zr.N("号"))}}
 	body = append(body, custom)
+	if raise == "ctor-throw" || raise == "ctor-fault" || (c09Extra != nil && (c09Extra.hRaise == "ctor-throw" || c09Extra.hRaise == "ctor-fault")) {
+		body = append(body, zr.ClassDef{Name: "炸", Props: []zr.PropDef{{Name: "值", Val: intLit(0)}}},
+			&zr.FuncDef{Name: "炸", Ctor: true, Params: []string{"量"}, Body: []zr.Stmt{
+				zr.Show(zr.S("in-ctor"), zr.N("量")),
+				zr.If{Cond: zr.Bin{Op: "==", L: zr.N("量"), R: intLit(0)}, Then: []zr.Stmt{zr.Set(zr.ThisProp{Prop: "值"}, zr.Bin{Op: "/", L: intLit(1), R: zr.N("量")})}},
+				zr.Throw{Class: "异常", Args: []zr.Expr{zr.S("ctor-boom")}},
+			}})
+	}
 	holder := zr.ClassDef{Name: "持有", Props: []zr.PropDef{{Name: "记", Val: intLit(100)}}}
 	handler := func(level int) []zr.Catch {
 		if c09Extra != nil && level == c09Extra.outerH && level != h {
@@ -159,7 +173,7 @@ func c09Chain(d int, raise string, h int, hc string, handlerReturns bool, inLoop
 }
 
 func checkC09(c *Ctx) {
-	c.rule = "programs: (a) fixed families: call chains of depth 0..4 whose innermost body raises one of 13 raise kinds (抛出 of 异常 / custom type, ÷0, index, key, undefined name, type error, failing 转换数值, missing method, arity, malformed % template, % argument count, number-like invalid identifier - the last three only judged where no handler of 异常 is on the way) optionally inside a loop, with a matching or non-matching handler (preceded by a wrong-class handler) at every level 0..depth, with/without 输出 in the handler, function or type-method callers; marks before/after every call, follow-up probes of locals, parameters, 其 and a further call after the handler ran; variants probing callee locals that must be undefined; nested families where the handler itself raises and a handler further out takes over; (b) random programs with 抛出, runtime faults, handlers on methods and program. Oracle: reference evaluator; plus quiescent invariants after every successful run: call stack empty and every module scope at depth 0 (hooks H3/H4). distinct_nontrivial = distinct (family parameters / feature set, outcome kind)"
+	c.rule = "programs: (a) fixed families: call chains of depth 0..4 whose innermost body raises one of 16 raise kinds (a constructor called with too few arguments / whose body raises / faults, 抛出 of 异常 / custom type, ÷0, index, key, undefined name, type error, failing 转换数值, missing method, arity, malformed % template, % argument count, number-like invalid identifier - the last three only judged where no handler of 异常 is on the way) optionally inside a loop, with a matching or non-matching handler (preceded by a wrong-class handler) at every level 0..depth, with/without 输出 in the handler, function or type-method callers; marks before/after every call, follow-up probes of locals, parameters, 其 and a further call after the handler ran; variants probing callee locals that must be undefined; nested families where the handler itself raises and a handler further out takes over; (b) random programs with 抛出, runtime faults, handlers on methods and program. Oracle: reference evaluator; plus quiescent invariants after every successful run: call stack empty and every module scope at depth 0 (hooks H3/H4). distinct_nontrivial = distinct (family parameters / feature set, outcome kind)"
 	c.assumptions = []string{"message text of runtime faults is not compared (U7)", "handlers only use 其, parameters and literals (U1)"}
 	rng := c.Rand("c09")
 	var progs []*zr.Program
@@ -192,8 +206,8 @@ func checkC09(c *Ctx) {
 	// handlers that raise themselves, dealt with by a handler further out; the caller of that
 	// outer body must find its 其, locals and call depth untouched
 	for d := 2; d <= c.Pick(3, 4); d++ {
-		for _, raise := range []string{"throw", "div0", "throw-custom", "undefined"} {
-			for _, hRaise := range []string{"throw", "div0", "throw-custom", "index"} {
+		for _, raise := range []string{"throw", "div0", "throw-custom", "undefined", "ctor-arity", "ctor-throw"} {
+			for _, hRaise := range []string{"throw", "div0", "throw-custom", "index", "ctor-arity", "ctor-throw"} {
 				for h := 1; h <= d; h++ {
 					for outer := 0; outer < h; outer++ {
 						for _, asMethod := range []bool{false, true} {
